@@ -221,7 +221,7 @@ def c19_jobs(Job, tier):
         js.append(last_sector_job(Job, cfg))
         js.append(sector_count_job(Job, cfg))
         js.append(visit_job(Job, cfg))
-        js += colstream_jobs(Job, cfg)
+        js += colstream_jobs(Job, cfg) + hfegeom_jobs(Job, cfg)
         if cfg is CFG_ASSERT:
             # every other extracted function that contains an assert(): the same contracts, assertions compiled in
             js += [j for j in fileio_jobs(Job, cfg) if "presented_blockwise" in j.name or "blockwise" in j.name]
